@@ -52,11 +52,14 @@ srvstop() {
 # tier B: test binary compiled with go1.26.8 (testing/synctest bubbles)
 build_b() {
   cp /repo/go.sum h/go.sum 2>/dev/null
-  # client/manager.go with its select statement put under explorer control (virtual file, /repo untouched)
+  # client/manager.go, sync.go, rule.go with their select statements put under explorer control (virtual files, /repo untouched)
   mkdir -p bin/vsel
   (cd h && go build -o ../bin/vselgen ./cmd/vselgen) || { echo "HARNESS-ERROR: vselgen build failed"; exit 3; }
-  bin/vselgen /repo/client/manager.go bin/vsel/manager.go.txt > bin/vsel/gen.log 2>&1 || { cat bin/vsel/gen.log; echo "HARNESS-ERROR: vselgen failed (does /repo still compile?)"; exit 3; }
-  printf '{"Replace":{"/repo/client/manager.go":"%s/bin/vsel/manager.go.txt"}}' "$VERIF_ROOT" > bin/ov_b.json
+  : > bin/vsel/gen.log
+  for f in manager sync rule; do
+    bin/vselgen /repo/client/$f.go bin/vsel/$f.go.txt >> bin/vsel/gen.log 2>&1 || { cat bin/vsel/gen.log; echo "HARNESS-ERROR: vselgen failed (does /repo still compile?)"; exit 3; }
+  done
+  printf '{"Replace":{"/repo/client/manager.go":"%s/bin/vsel/manager.go.txt","/repo/client/sync.go":"%s/bin/vsel/sync.go.txt","/repo/client/rule.go":"%s/bin/vsel/rule.go.txt"}}' "$VERIF_ROOT" "$VERIF_ROOT" "$VERIF_ROOT" > bin/ov_b.json
   (cd h && go1.26.8 test -c -vet=off -overlay ../bin/ov_b.json -o ../bin/verifb.test ./tb) || { echo "HARNESS-ERROR: tier-B build failed (does /repo still compile?)"; exit 3; }
 }
 run_b() { VERIF_TIER="$tier" exec bin/verifb.test -test.run "^Test$1\$" -test.timeout 0; }
